@@ -22,6 +22,10 @@ def run(tier, seed):
     run_contracts(pack, [(T.test_init('C05'), None, T.replay_test_init), (T.tds_init('C05'),)])
     from contracts import fn_handover as H
     run_contracts(pack, [(H.genbase_v_numeric('C05'), None, H.replay_genbase_v_numeric), (H.solve_iter_c('C05'), None, H.replay_solve_iter)])
+    # the power-flow point is handed over: growing the DAE vectors for the dynamic models keeps what the power flow solved (also states)
+    from contracts import fn_resume as RSZ
+    run_contracts(pack, [(RSZ.dae_resize_arrays('C05'), None, RSZ.replay_resize_arrays), (RSZ.dae_extend_or_slice('C05', 'zeros'), None, RSZ.replay_resize_arrays),
+                         (RSZ.dae_extend_or_slice('C05', 'ones'), None, RSZ.replay_resize_arrays)])
     C18.run(tier, seed, prefix='C05', want=('SS',), pack=pack)
     # P / Q hand-over: each dynamic device takes its declared share of the static generator it replaces
     from contracts import specutil as U
